@@ -579,6 +579,7 @@ def r_setters(ctx, prefixes, rule='R-SETTER'):
     matter and no value of an option is silently reinterpreted)."""
     F = ctx.F
     n = 0
+    owner_fields = {}
     for f in F.lib_fns():
         if not f.path.startswith(prefixes) or '{closure' in f.path or f.arg_count != 2:
             continue
@@ -683,7 +684,13 @@ def r_setters(ctx, prefixes, rule='R-SETTER'):
                 if b < 0 or not all(f.dominates(b, r) for r in rets):
                     why = 'the store does not happen on every path'
                     break
+        if why is None and len(paths_set) == 1:
+            owner_fields.setdefault(next(iter(paths_set)), []).append(f.path)
         ctx.check(why is None, rule, f.path.split('::<')[0].split('::')[-2].split('<')[0] + '::' + name if False else '%s' % f.path, f.loc(),
                   'sets exactly its own option to the caller\'s value, unconditionally',
                   'the setter `%s` is not a plain "replace this one option by the argument": %s -- other options given before it, or particular values of this one, would be lost or reinterpreted' % (f.path, why))
+    # every setter has an option of its own: two setters storing the same field means one of them sets the wrong option
+    for fld, setters in owner_fields.items():
+        ctx.check(len(setters) == 1, rule, 'distinct/' + '.'.join(map(str, fld)), '', 'one setter per option',
+                  'the option `%s` is stored by %d setters (%s): one of them sets another option than the one it is named after' % ('.'.join(map(str, fld)), len(setters), sorted(setters)))
     return n
